@@ -29,7 +29,7 @@ JOBS = int(os.environ.get("VERIF_JOBS", "16"))
 SAN_FLAGS = ["-O1", "-g", "-fsanitize=address,undefined", "-fno-sanitize-recover=undefined",
              "-fno-omit-frame-pointer"]
 RUN_ENV = dict(os.environ,
-               ASAN_OPTIONS="detect_leaks=0:abort_on_error=0:exitcode=77:allocator_may_return_null=1:detect_stack_use_after_return=0",
+               ASAN_OPTIONS="detect_leaks=0:abort_on_error=0:exitcode=77:allocator_may_return_null=1:detect_stack_use_after_return=0:quarantine_size_mb=64:malloc_context_size=5",
                UBSAN_OPTIONS="print_stacktrace=1:halt_on_error=1:exitcode=77")
 
 
